@@ -47,6 +47,23 @@ def main(argv):
         print(f"VIOLATION property={prop} replay={p} no-failing-input-found")
         return 1
     pinfo = runner.proof_leg(prop)
+    # translator tier (DESIGN 4.2): generated definitions = hand model, regenerated from /repo on every run
+    try:
+        import genleg
+        g = genleg.run_gen_leg()
+    except Exception as e:          # the tier is additive: its absence is a loss of strength, not an alarm
+        g = {"error": f"{type(e).__name__}: {e}", "failed": [], "unavailable": []}
+    mine = [f for f in g.get("failed", []) if prop in f.get("properties", [])]
+    pinfo["gen"] = {"obligations_total": g.get("obligations"), "discharged_total": g.get("discharged"),
+                    "translated_functions": g.get("translated") if not isinstance(g.get("translated"), list) else len(g.get("translated")),
+                    "unavailable": g.get("unavailable") if not isinstance(g.get("unavailable"), list) else [u.get("name") for u in g.get("unavailable")][:20],
+                    "failed_for_this_property": [{"lemma": f.get("lemma"), "python": f.get("python")} for f in mine],
+                    "error": g.get("error"), "wall_s": g.get("wall_s")}
+    if mine:
+        pinfo["ok"] = False
+        pinfo["problems"].append("generated-definition equality lemma(s) no longer hold (the Python source of a translated leaf "
+                                 "function changed its meaning): " + ", ".join(f"{f.get('lemma')} [{f.get('python')}]" for f in mine[:6]))
+        pinfo["gen_failed"] = mine
     if tier == "thorough" and not replay and pinfo.get("ok"):
         pinfo["coqchk"] = runner.coqchk_leg(prop)
         if not pinfo["coqchk"]["ok"]:
@@ -60,8 +77,8 @@ def main(argv):
     budget = dict(mod.BUDGET[tier])
     # changed-code escalation: if a file this property is anchored in differs from the recorded baseline,
     # the quick run spends a larger budget (never an alarm by itself)
-    import fingerprint
-    changed = fingerprint.changed_files(prop)
+    import fingerprint as fpmod
+    changed = fpmod.changed_files(prop)
     CHANGED_FILES[:] = changed
     if changed and tier == "quick":
         for k, v in list(budget.items()):
@@ -124,7 +141,8 @@ def main(argv):
         # proof leg problems
         if not pinfo["ok"]:
             payload = {"property": prop, "kind": "proof-obligation", "slice_or_theorem": pinfo["file"],
-                       "problems": pinfo["problems"], "how_to_run": f"./check {prop}"}
+                       "problems": pinfo["problems"], "broken_generated_lemmas": pinfo.get("gen_failed", []),
+                       "how_to_run": f"./check {prop}"}
             p = runner.write_replay(prop, payload)
             has_input = any(k == "violation" for _, k, _, _ in all_findings)
             if not has_input:
@@ -206,6 +224,7 @@ def write_evidence(prop, tier, seed, mod, pinfo, slices, slice_reports, violatio
         "theorems": (pinfo or {}).get("theorems", []),
         "print_assumptions": (pinfo or {}).get("assumptions", "")[-6000:],
         "proof_leg_problems": (pinfo or {}).get("problems", []),
+        "translator_tier": (pinfo or {}).get("gen", {}),
         "coqchk": (pinfo or {}).get("coqchk", {"ran": False, "note": "coqchk runs in the thorough tier only"}),
         "evaluations": evals,
         "distinct_nontrivial": distinct,
